@@ -3,6 +3,7 @@
 package drive
 
 import (
+	"database/sql"
 	"bytes"
 	"runtime"
 	"strconv"
@@ -20,6 +21,7 @@ import (
 	"github.com/pegnet/pegnetd/config"
 	"github.com/pegnet/pegnetd/fat/fat2"
 	"github.com/pegnet/pegnetd/node"
+	"github.com/pegnet/pegnetd/node/pegnet"
 	"github.com/sirupsen/logrus"
 	"github.com/spf13/viper"
 
@@ -144,6 +146,42 @@ func Open(path string, fk *fake.Node, hooks *sqlw.Hooks, wal bool) (*Daemon, err
 	}
 	db := sqlw.Open(dsn, hooks)
 	n.Pegnet.DB = db.DB
+	n.FactomClient.Factomd.Transport = fk
+	return &Daemon{Path: path, Node: n, DB: db, Fake: fk, WAL: wal}, nil
+}
+
+// Continue builds a node on path WITHOUT running any start-up code (no table creation, no migrations, no
+// hard-fork check): together with CacheRestore it is a clone of a node that keeps running, as opposed to Open,
+// which is a restart. The in-memory sync height is the committed one, as in a running node.
+func Continue(path string, fk *fake.Node, hooks *sqlw.Hooks, wal bool) (*Daemon, error) {
+	Setup()
+	conf := viper.New()
+	conf.Set(config.SqliteDBPath, path)
+	conf.Set(config.DBlockSyncRetryPeriod, time.Duration(0))
+	conf.Set(config.Network, "none")
+	conf.Set(config.Server, "http://fake.invalid/v2")
+	conf.Set(config.SQLDBWalMode, wal)
+	node.InitChainsFromConfig(conf)
+	n := &node.Pegnetd{FactomClient: node.FactomClientFromConfig(conf), Config: conf, Pegnet: pegnet.New(conf)}
+	dsn := path + ".v4"
+	if wal {
+		dsn += "?_journal=WAL&"
+	}
+	db := sqlw.Open(dsn, nil)
+	n.Pegnet.DB = db.DB
+	sync, err := n.Pegnet.SelectSynced(context.Background(), n.Pegnet.DB)
+	if err == sql.ErrNoRows {
+		sync, err = &pegnet.BlockSync{Synced: config.PegnetActivation}, nil
+	}
+	if err != nil {
+		db.Close()
+		db.KillConns()
+		return nil, err
+	}
+	n.Sync = sync
+	if hooks != nil {
+		db.SetHooks(hooks)
+	}
 	n.FactomClient.Factomd.Transport = fk
 	return &Daemon{Path: path, Node: n, DB: db, Fake: fk, WAL: wal}, nil
 }
